@@ -95,6 +95,33 @@ def roundtrip_cases(ctx):
         cases.append({"fn": "mt_read", "n": 4000, "per_rg": 100, "rounds": 12 if ctx.quick() else 40, "switch": 1e-5, "scheme": scheme,
                       "dpv": dpv, "compression": comp, "seed": rng.randrange(1 << 30),
                       "threads": [["s"], ["i"], ["b"], ["f", "c"], ["s", "j"], ["i"]], "stream": "main"})
+    # column chunks as other writers lay them out (PARQUET-816 shape: total_compressed_size without the dictionary page header) x
+    # created_by variants: the buffer handed to the native decoders must cover the pages whatever the writer calls itself
+    cbs = [None, "parquet-mr", "parquet-mr version 1.2", "parquet-mr version 1.2.8 (build abc)", "parquet-mr version 1.8.1 (build def)",
+           "impala version 1.2.1", "parquet-cpp version 1.5.1-SNAPSHOT", "Apache Drill", "fastparquet-python version 2024.2.0 (build 0)", ""]
+    for cb in cbs:
+        for shape in (True, False):
+            if not shape and ctx.quick() and cb not in (None, "parquet-mr"):
+                continue
+            for n, ncat in (((4000, 40),) if ctx.quick() else ((4000, 40), (800, 3), (40000, 300))):
+                cases.append({"fn": "foreign_chunk", "n": n, "ncat": ncat, "shape816": shape, "created_by": cb, "single": True, "stream": "main"})
+    # other layouts of the same chunk: pages of more than 64 KiB with 16-bit indices, data page v2, several row groups (row counts are
+    # multiples of 8: the index runs are whole groups), a second column behind the chunk
+    for cb in (None, "parquet-mr", "parquet-mr version 1.2.8 (build abc)"):
+        for kw in ({"n": 80000, "ncat": 300}, {"n": 80000, "ncat": 300, "dpv": 2}, {"n": 8000, "ncat": 40, "rg_rows": 800, "single": False},
+                   {"n": 4000, "ncat": 2, "dpv": 2}):
+            cases.append(dict({"fn": "foreign_chunk", "shape816": True, "created_by": cb, "single": True, "stream": "main"}, **kw))
+    # long NON-ASCII text reaching the footer through each API path.  Pinned estimate of ThriftObject.to_bytes: max(500000, 1000 * row groups *
+    # schema elements + len(str(key_value_metadata))) BYTES for text counted in CHARACTERS: caller-given str values of custom_metadata above
+    # ~166 000 characters overflow (the open finding, confirmation case kv_nonascii_big); sizes just below must pass, and so must every other
+    # path (attrs are stored \\u-escaped: 6 ASCII characters per character; bytes values are over-estimated by their repr)
+    for path, sizes in (("attrs", (1000, 160000, 200000, 400000)), ("custom_metadata_str", (1000, 100000, 160000)),
+                        ("custom_metadata_bytes", (1000, 200000, 400000)), ("column_name", (100, 5000, 20000)),
+                        ("cat_labels", (100, 5000, 200000)), ("string_values", (100, 5000, 200000))):
+        for chars in (sizes if not ctx.quick() else sizes[-2:]):
+            cases.append({"fn": "nonascii_text", "path": path, "chars": chars, "stream": "main"})
+    # pinned defect (open finding, .pyx): a column name whose UTF-8 form alone exceeds the serialiser's fixed estimate
+    cases.append({"fn": "nonascii_text", "path": "column_name", "chars": 100000, "stream": "confirm"})
     cases.append({"fn": "thrift_numpy_int", "stream": "confirm"})
     cases.append({"fn": "kv_nonascii_big", "n": 400000, "stream": "confirm"})
     return cases
@@ -105,13 +132,17 @@ def roundtrip_collect(cases, scratch, quick):
     main_cases = [c for c in cases if c["stream"] == "main"]
     conf_cases = [c for c in cases if c["stream"] == "confirm"]
     mt_cases = [c for c in main_cases if c["fn"] == "mt_read"]
-    main_cases = [c for c in main_cases if c["fn"] != "mt_read"]
+    fc_cases = [c for c in main_cases if c["fn"] in ("foreign_chunk", "nonascii_text")]
+    conf_cases = sorted(conf_cases, key=lambda c: c["fn"])
+    main_cases = [c for c in main_cases if c["fn"] not in ("mt_read", "foreign_chunk", "nonascii_text")]
     real = L.run_real(main_cases, os.path.join(scratch, "rt"), sanitize=True, nproc=4 if quick else 8,
                       max_crashes=10, worker=worker, chunk=30, timeout=600)
     # the multi-threaded reads: one worker process each (a crash there must not take other cases with it)
     real += L.run_real(mt_cases, os.path.join(scratch, "rtm"), sanitize=True, nproc=len(mt_cases) or 1, max_crashes=3, worker=worker,
                        timeout=300, chunk=1)
-    main_cases = main_cases + mt_cases
+    real += L.run_real(fc_cases, os.path.join(scratch, "rtf"), sanitize=True, nproc=4, max_crashes=len(fc_cases) + 1, worker=worker,
+                       timeout=300, chunk=4)
+    main_cases = main_cases + mt_cases + fc_cases
     real += L.run_real(conf_cases, os.path.join(scratch, "rtc"), sanitize=True, nproc=2, max_crashes=10, worker=worker,
                        timeout=300, chunk=1)
     return main_cases + conf_cases, real
@@ -123,7 +154,7 @@ def roundtrip_judge(ctx, cases, real):
             ctx.count("round trips not run (worker crashed too often)", 1)
             continue
         short = {"stream": "roundtrip", "fn": c["fn"], "spec": c.get("spec"), "opts": c.get("opts"), "n": c.get("n")}
-        if c["fn"] == "mt_read":
+        if c["fn"] in ("mt_read", "foreign_chunk", "nonascii_text"):
             short = dict({k: v for k, v in c.items() if k != "stream"}, stream="roundtrip")
         ctx.case(short, trivial=c["fn"] == "rt" and c["spec"]["n"] == 0)
         ctx.count("round-trip stream outcome", r[1] if r[0] in ("ok", "exc") else r[0])
@@ -132,9 +163,22 @@ def roundtrip_judge(ctx, cases, real):
         rr = r[3] if (r[0] == "ubsan" and len(r) > 3) else r
         if r[0] in ("crash", "asan", "ubsan", "missing"):
             kinds = sorted({col["kind"] for col in c["spec"]["cols"]}) if c["fn"] == "rt" else []
-            ctx.fail({"component": "roundtrip" if c["fn"] == "rt" else c["fn"], "stream": c["stream"], "kind": r[0],
-                      "dpv": (c.get("opts") or c).get("dpv"), "where": _where(r[2] if len(r) > 2 else "")},
+            cls = {"component": "roundtrip" if c["fn"] == "rt" else c["fn"], "stream": c["stream"], "kind": r[0],
+                   "dpv": (c.get("opts") or c).get("dpv"), "where": _where(r[2] if len(r) > 2 else "")}
+            if c["fn"] == "nonascii_text":
+                cls["path"] = c["path"]            # WHICH API path delivered the non-ASCII text (the open finding: caller-given custom_metadata str)
+            if c["fn"] == "foreign_chunk":
+                cls["shape816"] = c["shape816"]
+                cls["created_by"] = "absent" if c["created_by"] is None else (c["created_by"].split(" ")[0] or "empty")
+            ctx.fail(cls,
                      short, "writer/reader under the sanitised build: %r; column kinds %s" % (r[:3], kinds))
+        elif c["fn"] == "nonascii_text" and (r[0] == "exc" or (r[0] == "ok" and r[1] not in ("clean", "write-raised"))):
+            ctx.fail({"component": "nonascii_text", "stream": c["stream"], "kind": "bad-read", "path": c["path"], "where": ""}, short,
+                     "long non-ASCII text through %s (under the sanitised build): %r" % (c["path"], r[:3]))
+        elif c["fn"] == "foreign_chunk" and (r[0] == "exc" or (r[0] == "ok" and r[1] != "clean")):
+            ctx.fail({"component": "foreign_chunk", "stream": c["stream"], "kind": "bad-read", "shape816": c["shape816"],
+                      "created_by": "absent" if c["created_by"] is None else c["created_by"].split(" ")[0], "where": ""}, short,
+                     "a dictionary-encoded chunk laid out as other writers do (under the sanitised build): %r" % (r[:3],))
         elif c["fn"] == "mt_read" and (r[0] == "exc" or (r[0] == "ok" and r[1] != "clean")):
             # no memory error was SEEN, but a reader thread got an exception / other data from a well-formed file: the
             # native decoders were handed bytes that are not the page the metadata names
@@ -204,7 +248,7 @@ def replay_roundtrip(case):
         r = L.run_real([c], tmp, sanitize=True, nproc=1, worker=worker, timeout=600)[0]
         print("case:", json.dumps(c)[:1500])
         print("real code under ASan+UBSan:", json.dumps(r)[:800])
-        bad = r[0] in ("crash", "asan", "ubsan", "missing") or (c["fn"] == "mt_read" and (r[0] == "exc" or r[1] != "clean"))
+        bad = r[0] in ("crash", "asan", "ubsan", "missing") or (c["fn"] in ("mt_read", "foreign_chunk") and (r[0] == "exc" or r[1] != "clean")) or (c["fn"] == "nonascii_text" and (r[0] == "exc" or r[1] not in ("clean", "write-raised")))
         print("=> property %s on this case" % ("FAILS" if bad else "holds"))
         return 1 if bad else 0
     finally:
